@@ -64,12 +64,13 @@ class _FaultyFile:
 
     def read(self, *a):
         self._plan['calls'] += 1
-        if self._plan['fail_at'] is not None and self._plan['calls'] == self._plan['fail_at']:
+        fa = self._plan['fail_at']
+        if fa is not None and fa <= self._plan['calls'] < fa + self._plan.get('burst', 1):
+            self._plan['fired'] += 1
             kind = self._plan.get('kind', 'oserror')
             if kind == 'oserror':
                 raise OSError(errno.EIO, 'injected I/O error')
             raise MemoryError('injected')
-        self._plan['log'].append(self._plan['yielded'])
         return self._fh.read(*a)
 
     def __getattr__(self, name):
@@ -101,9 +102,17 @@ def run_case(torf, wd, c):
     th, qu = shim.make_shims(sched)
     saved = (G.threading, G.queue, G.time_monotonic)
     saved_open = S.__dict__.get('open', None)
-    plan = {'calls': 0, 'fail_at': c.get('read_fault'), 'log': [], 'yielded': 0,
+    plan = {'calls': 0, 'fail_at': c.get('read_fault'), 'fired': 0, 'burst': c.get('read_fault_burst', 1),
             'kind': c.get('read_fault_kind', 'oserror')}
-    G.threading, G.queue, G.time_monotonic = th, qu, sched.clock
+    gate_nows = []
+
+    def clock():
+        # every time_monotonic() call made by the collecting thread is one evaluation of the interval gate
+        if shim.cur().name == 'main':
+            gate_nows.append(sched.now)
+        return sched.now
+
+    G.threading, G.queue, G.time_monotonic = th, qu, clock
     if c.get('read_fault') is not None or c.get('count_reads'):
         import builtins
         S.open = lambda p, mode='r', *a, **k: _FaultyFile(builtins.open(p, mode, *a, **k), plan)
@@ -120,6 +129,7 @@ def run_case(torf, wd, c):
             rec = {'same_torrent': tor is t, 'done': done, 'total': total, 'piece': pi,
                    'hash': None if ph is None else bytes(ph).hex(), 'now': sched.now,
                    'exc': None if exc is None else exc_obs(torf, exc, index_of, cb_exc)}
+        rec['at_step'] = len(sched.trace)
         calls.append(rec)
         d = (cbspec.get('table') or {}).get(str(done))
         if d == 'cancel':
@@ -157,7 +167,8 @@ def run_case(torf, wd, c):
         'pieces_stored': t.metainfo['info'].get('pieces') if c['mode'] == 'generate' else None,
         'want_pieces': want_pieces,
         'total': len(want_pieces) // 20,
-        'read_calls': plan['calls'],
+        'read_calls': plan['calls'], 'fault_fired': plan['fired'],
+        'gate_nows': gate_nows,
         'structure': {'pq_max': sched.queues[0].maxsize if sched.queues else None,
                       'hq_max': sched.queues[1].maxsize if len(sched.queues) > 1 else None},
     }
